@@ -161,7 +161,7 @@ CORE_CLASSES = {
     "C03": ["pings", "pings", "disable"],
     "C04": ["chans", "chans", "mix"],
     "C10": ["streams", "execs", "execs", "mix"],
-    "C12": ["timers", "timers", "mix"],
+    "C12": ["timers", "timers", "mix", "chans"],
     "C02": ["ready", "fds", "mix", "timers"],
     "C05": ["timers", "mix"],
     "C06": ["reuse", "timers", "mix", "faults", "execs"],
